@@ -831,6 +831,11 @@ def _dtype_case(ctx, H, cls, ps, trim, wrapped, ctor, T, ns, meth, kind, vals, t
         else:
             for j, (a, b) in enumerate(zip(g, w)):
                 if not ((a == b) or (a != a and b != b) or abs(a - b) <= rtol * abs(b) + atol):
+                    if (a != a or abs(a) >= 1e15) and (b != b or abs(b) >= 1e15) and H.exponent_of(cls, ps) not in (None, 1.0, 2.0, 3.0, 4.0, 5.0, 6.0):
+                        # the singular end with a non-integer exponent: the last bit of pow (integer base vs float base take
+                        # different NumPy loops) decides between inf (trimmed: 1e16) and a huge finite value
+                        ctx.tagc("r3:oracle:dtype:pole-noninteger-exponent-not-compared")
+                        continue
                     if rtol < 1e-6 and math.isfinite(a) and math.isfinite(b):
                         # conditioning: how far the float64 value moves when the point moves by a few ulp
                         x = float(vals[j])
@@ -870,7 +875,9 @@ def oracle_extreme_reference(ctx: Ctx, budget, H):
             if sp is None:
                 break
             o = H._obj("T0", cls, sp["ps"], sp["trim"])
-            xs = [x for x in sp["xs"]][:2]
+            # (finite domain: |x| <= 0.7 — next to x = -1 the maps with (1 + x)**m, m up to 6, leave r - rmin below the rounding of
+            # rmin, the double-precision inverse has no digits there; the main oracle keeps the same distance for large exponents)
+            xs = [x for x0, x in zip(sp["xs0"], sp["xs"]) if cls not in H_FINITE or abs(x0) <= 0.7][:2] or [0.25 * sp["fin"]]
             S.run([o], _steps_all_methods(H, o, cls, o["ps"], o["trim"], xs, "float64", f"{cls}:2^{sp['e']}", one_by_one=(cls == "HyperbolicRTransform")))
     for _ in range(2 * n):
         ps, trim = handymod_extreme(rng)
